@@ -6,8 +6,8 @@ CONSTANTS
   WVecs <- MCWVecs
   Offs <- MCOffs
   Units <- MCUnits
-  NG = 4
-  NGT = 3
+  NG = 12
+  NGT = 6
   Mults <- MCMults
   Damps <- MCDamps
   TholeTpl <- MCThin
